@@ -164,7 +164,8 @@ fn check_state(c: &Checksum<'_>, model: &Model, at: &str) -> Result<Vec<(String,
     // (through `Deref` of the value here, through `raw()` in `observe`)
     let via_into_iter = guarded(|| c.into_iter().map(|(alg, value)| (alg.to_owned(), (*value).to_owned())).collect::<Vec<_>>())
         .map_err(|p| violation!("C12.panic_in_iter", "{at}: into_iter() panicked: {p}"))?;
-    if via_into_iter != entries {
+    // Both are documented as unordered: compare as sets.
+    if as_model(&via_into_iter) != as_model(&entries) {
         return Err(violation!(
             "C12.into_iter_differs_from_iter",
             "{at}: (&checksum).into_iter() yields {:?}, iter() yields {:?}",
